@@ -125,7 +125,8 @@ void ParallelAction::onResume() {
     }
 
     //! 暂停期间收到的子动作结果，在恢复运行后重新处理
-    if (!held_child_results_.empty()) {
+    //! 如果上一次派发的重放任务还没执行，它执行时会一并处理，不重复派发
+    if (!held_child_results_.empty() && replay_run_id_ == 0) {
         replay_run_id_ = loop_.runNext(
             [this] {
                 replay_run_id_ = 0;
